@@ -11,6 +11,7 @@ import (
 	"runtime/debug"
 	"sort"
 	"sync"
+	"sync/atomic"
 	"time"
 )
 
@@ -157,14 +158,35 @@ func (c *Ctx) Call(op M) M {
 }
 
 // guard runs f, converting a panic in the implementation into an observable.
+// guard runs f, converting a panic in the implementation into an observable, and a call that does not return within the budget into
+// {"timeout_s": n} (the goroutine is abandoned: a check must terminate even when the code under test does not).
 func guard(f func() M) (out M) {
-	defer func() {
-		if p := recover(); p != nil {
-			out = M{"panic": fmt.Sprint(p), "stack": string(debug.Stack())}
-		}
+	if atomic.LoadInt32(&guardTimeouts) >= 4 {
+		// the code under test has stopped returning: every further call would cost the whole budget (and leave a spinning goroutine behind)
+		return M{"timeout_s": guardBudget.Seconds(), "not_run_after_repeated_timeouts": true}
+	}
+	done := make(chan M, 1)
+	go func() {
+		defer func() {
+			if p := recover(); p != nil {
+				done <- M{"panic": fmt.Sprint(p), "stack": string(debug.Stack())}
+			}
+		}()
+		done <- f()
 	}()
-	return f()
+	select {
+	case out = <-done:
+		return out
+	case <-time.After(guardBudget):
+		atomic.AddInt32(&guardTimeouts, 1)
+		return M{"timeout_s": guardBudget.Seconds()}
+	}
 }
+
+// guardBudget: far above anything the library needs for the inputs the streams generate (milliseconds), far below a check's patience
+const guardBudget = 20 * time.Second
+
+var guardTimeouts int32
 
 type Stream struct {
 	Name string
@@ -216,7 +238,21 @@ func main() {
 				os.Exit(2)
 			}
 			c := &Ctx{D: d, R: r, Res: res, Tier: *tier, CrashOnly: *prop == "C09"}
-			s.Run(c)
+			func() {
+				defer func() {
+					if p := recover(); p != nil {
+						// an executor could not interpret the model's answer (a model_error, a missing member): the stream stops here and
+						// the case is reported as a disagreement
+						res.mu.Lock()
+						res.NDisagreements++
+						res.ByStream[s.Name+"|harness-panic"]++
+						res.Disagreements = append(res.Disagreements, Disagreement{Stream: s.Name, Op: M{"_dev": "stream aborted"},
+							Impl: M{}, Model: M{"stream_aborted": fmt.Sprint(p), "stack": string(debug.Stack())}})
+						res.mu.Unlock()
+					}
+				}()
+				s.Run(c)
+			}()
 			d.Close()
 			dm.Lock()
 			totalAsks += d.Asks
